@@ -47,7 +47,7 @@ pub fn same_function(
     Ok(())
 }
 
-fn closed_route_region(t: &XTree, x: &[Q]) -> Vec<Row> {
+pub fn closed_route_region(t: &XTree, x: &[Q]) -> Vec<Row> {
     let (seen, _) = t.route(x);
     let last = *seen.last().unwrap();
     let mut reg = t.closed_region(last);
